@@ -86,6 +86,9 @@ class TupleCoord(recordclass.RecordClass, _IterableStub):
             return other == self.data()
         return other.data() == self.data()
 
+    def __ne__(self, other):
+        return not self.__eq__(other)
+
     def __gt__(self, other):
         return all(x > y for x, y in zip(self, other))
 
